@@ -61,6 +61,18 @@ func load(pkgPaths []string) (*Loaded, error) {
 		}
 		cps = append(cps, p)
 	})
+	for _, p := range cps {
+		m := map[string]string{}
+		for _, file := range p.Syntax {
+			for _, is := range file.Imports {
+				if is.Name == nil || is.Name.Name == "_" || is.Name.Name == "." {
+					continue
+				}
+				m[is.Name.Name] = strings.Trim(is.Path.Value, `"`)
+			}
+		}
+		importAliases[p.PkgPath] = m
+	}
 	sort.Slice(cps, func(i, j int) bool { return cps[i].PkgPath < cps[j].PkgPath })
 	for _, p := range cps {
 		dir := filepath.Dir(p.GoFiles[0])
